@@ -109,6 +109,18 @@ def run(ctx, family=FAMILY, detail=False, decorate_docs=False, space=False):
       if ob:
         ctx.nontrivial((r["id"], r["times"][j]))
   ctx.traces += len(good)
+  import os
+  if os.environ.get("VERIF_CORRUPT") and good:
+    # self-test of the binding: corrupt ONE recorded field per clause family
+    vic = next(r for r in good if any(reg["leaves"] for ob in r["obs"] for reg in ob))
+    j = next(k for k, ob in enumerate(vic["obs"]) if any(reg["leaves"] for reg in ob))
+    reg = next(reg for reg in vic["obs"][j] if reg["leaves"])
+    if family == "c01":
+      reg["leaves"] = reg["leaves"][:-1]
+    elif family == "c02":
+      vic["sig"] = vic["sig"][:1] + vic["sig"][:1] + vic["sig"][1:]
+    elif family == "c13":
+      reg["tree"][-1]["hasb"] = 1
   fails = validate(ctx, good, [family], family)
   byrec = {r["id"]: r for r in good}
   for rid_, tick, clause in fails:
